@@ -47,6 +47,23 @@ Theorem C01_honest_accepted : forall k n names t,
   In n names -> accept_remote None names (honest_cert k n) (honest_proof k t) t = Some k.
 Proof. exact honest_accepted. Qed.
 
+(** Certificate chains: identity and admission depend on the end-entity (first) certificate only;
+    extra certificates of identities the adversary does not hold are useless. *)
+Theorem C01_chain_identity_is_end_entity : forall K fresh pin names ch p x,
+  producible_proof K fresh p -> accept_chain pin names ch p fresh = Some x ->
+  In x K /\ exists c rest, ch = c :: rest /\ x = c_key c.
+Proof. exact chain_identity_is_end_entity. Qed.
+
+Theorem C01_chain_tail_irrelevant : forall pin names c r1 r2 p t,
+  accept_chain pin names (c :: r1) p t = accept_chain pin names (c :: r2) p t.
+Proof. exact chain_tail_irrelevant. Qed.
+
+Example C01_chain_ex :   (* adversary 7 appends / prepends the certificate of victim 3 *)
+  accept_chain None [5] [honest_cert 7 5; honest_cert 3 5] (honest_proof 7 99) 99 = Some 7
+  /\ accept_chain None [5] [honest_cert 3 5; honest_cert 7 5] (honest_proof 7 99) 99 = None
+  /\ accept_chain None [5] [] (honest_proof 7 99) 99 = None.
+Proof. vm_compute. repeat split. Qed.
+
 Example C01_ex :
   accept_remote None [5] (honest_cert 7 5) (honest_proof 7 99) 99 = Some 7
   /\ accept_remote None [5] (honest_cert 7 5) (honest_proof 8 99) 99 = None        (* wrong key *)
@@ -65,3 +82,5 @@ Print Assumptions C01_client_auth_mandatory.
 Print Assumptions C01_identity_is_certificate_key.
 Print Assumptions C01_identity_fixed_by_certificate.
 Print Assumptions C01_honest_accepted.
+Print Assumptions C01_chain_identity_is_end_entity.
+Print Assumptions C01_chain_tail_irrelevant.
